@@ -269,6 +269,35 @@ class CFG:
         self._pdom = None
         self._reach = {}
 
+    def cut_noreturn(self, is_noreturn):
+        """Treat elements for which is_noreturn(node) holds as ending the path:
+        the block is split logically - everything after the element in the block
+        and the block's successors become unreachable from it.  Implemented by
+        removing the successor edges of such blocks (sound for must-analyses when
+        the element is the last effectful element of its block, which holds for
+        the `if (c) ReportError(...)` idiom)."""
+        changed = False
+        for b in self.blocks.values():
+            for e in b["el"]:
+                n = self.func.nodes.get(e)
+                if n is not None and is_noreturn(n):
+                    if self.succ[b["id"]]:
+                        self.succ[b["id"]] = []
+                        changed = True
+                    break
+        if changed:
+            self.pred = defaultdict(list)
+            for b, ss in self.succ.items():
+                for s_ in ss:
+                    if s_ is not None:
+                        self.pred[s_].append(b)
+            self._dom = self._pdom = None
+            self._reach = {}
+            for a in ("_mf", "_mfk"):
+                if hasattr(self, a):
+                    delattr(self, a)
+        return changed
+
     # -- basic graph ------------------------------------------------------
     def succs(self, b):
         return [s for s in self.succ[b] if s is not None]
